@@ -3,14 +3,18 @@ C03 — The parser builds the tree the source spells out.
 
 * The precedence table is REGENERATED from parser/parser.go.y (Anko.Gen.Prec); `table_is_stated`
   re-decides on every run that it is the table of the property statement.
-* Over that table (indeed over ANY table with one associativity per level) the
-  precedence-climbing parser reads the minimally parenthesised spelling of every binary-operator
-  tree back to that tree, and the fully parenthesised spelling to the same tree - unbounded depth
-  (Anko.Proofs.Pratt).  PARTIAL: prefix operators, postfix forms and ?: are covered by the
-  correspondence / metamorphic stream `parse`, not by the theorem.
+* Over that table (indeed over ANY table with one associativity per level, prefix operators above
+  the binary ones and postfix forms above those) the precedence-climbing parser reads the
+  minimally parenthesised spelling of every expression tree - binary operators, prefix operators,
+  `c ? a : b`, calls, index, slice and member forms, nested to any depth - back to that tree, and
+  the fully parenthesised spelling to the same tree (Anko.Proofs.Pratt); the parser is a function,
+  so that tree is the only reading (Anko.Proofs.PrattDet), and different trees have different
+  spellings.  The generated LALR parser itself is compared with the same printer by the
+  correspondence / metamorphic stream `parse`.
 * Literals: decimal integer numerals denote exactly their value or are rejected outside int64.
 -/
 import Anko.Proofs.Pratt
+import Anko.Proofs.PrattDet
 import Anko.Gen.ParserGen
 import Anko.Gen.Prec
 import Anko.Model.PrecTable
@@ -50,12 +54,42 @@ theorem unary_productions_faithful :
 
 /-! ### round trip over the regenerated table -/
 
-/-- For every expression tree over the binary operators (any nesting depth): the spelling with
-only the parentheses the table requires parses back to exactly that tree ... -/
+/-- prefix operators are the tightest declared level and are all reduced with it (`%prec UNARY`) -/
+theorem unary_level_is_tightest : levelOf "UNARY" + 1 = Gen.precLevels.length := unary_is_last
+
+/-- For every expression tree (binary and prefix operators, conditional, call / index / slice /
+member forms, any nesting depth): the spelling with only the parentheses the table requires parses
+back to exactly that tree ... -/
 theorem parse_printMin (t : Tree) : PExpr genTbl 0 (pr genTbl 0 t) (t, []) := roundtrip genTbl t
 
 /-- ... and so does the spelling with every implied parenthesis made explicit. -/
 theorem parse_printFull (t : Tree) : PExpr genTbl 0 (prFull t) (t, []) := roundtrip_full genTbl t
+
+/-- A token list has at most one reading: the parser is a function of its input. -/
+theorem parse_deterministic {m : Nat} {ts : List Tok} {R R' : Tree × List Tok}
+    (h : PExpr genTbl m ts R) (h' : PExpr genTbl m ts R') : R = R' := PExpr.det genTbl h h'
+
+/-- Hence the intended tree is the ONLY reading of its spelling (minimal or full) ... -/
+theorem parse_printMin_unique (t : Tree) (R : Tree × List Tok) (h : PExpr genTbl 0 (pr genTbl 0 t) R) : R = (t, []) :=
+  PExpr.det genTbl h (parse_printMin t)
+
+theorem parse_printFull_unique (t : Tree) (R : Tree × List Tok) (h : PExpr genTbl 0 (prFull t) R) : R = (t, []) :=
+  PExpr.det genTbl h (parse_printFull t)
+
+/-- ... and two different trees never share a spelling: the parentheses the printer leaves out
+are exactly the redundant ones. -/
+theorem printMin_injective (t t' : Tree) (h : pr genTbl 0 t = pr genTbl 0 t') : t = t' := by
+  have h1 := parse_printMin t
+  rw [h] at h1
+  have := PExpr.det genTbl h1 (parse_printMin t')
+  exact (Prod.mk.inj this).1
+
+/-- the full spelling and the minimal spelling of a tree have the same reading -/
+theorem printFull_reads_as_printMin (t : Tree) (R : Tree × List Tok) :
+    PExpr genTbl 0 (prFull t) R ↔ PExpr genTbl 0 (pr genTbl 0 t) R := by
+  constructor
+  · intro h; rw [parse_printFull_unique t R h]; exact parse_printMin t
+  · intro h; rw [parse_printMin_unique t R h]; exact parse_printFull t
 
 /-! ### integer literals -/
 
@@ -164,6 +198,16 @@ example : pr genTbl 0 (.bin "-" (.atom 1) (.bin "-" (.atom 2) (.atom 3))) =
     [.atom 1, .op "-", .lp, .atom 2, .op "-", .atom 3, .rp] := by decide
 example : pr genTbl 0 (.bin "??" (.atom 1) (.bin "??" (.atom 2) (.atom 3))) =
     [.atom 1, .op "??", .atom 2, .op "??", .atom 3] := by decide
+example : pr genTbl 0 (.bin "*" (.un "-" (.bin "+" (.atom 1) (.atom 2))) (.un "!" (.atom 3))) =
+    [.op "-", .lp, .atom 1, .op "+", .atom 2, .rp, .op "*", .op "!", .atom 3] := by decide
+example : pr genTbl 0 (.member (.un "-" (.atom 1))) = [.lp, .op "-", .atom 1, .rp, .dot] := by decide
+example : pr genTbl 0 (.un "-" (.member (.atom 1))) = [.op "-", .atom 1, .dot] := by decide
+example : pr genTbl 0 (.tern (.tern (.atom 1) (.atom 2) (.atom 3)) (.tern (.atom 4) (.atom 5) (.atom 6)) (.tern (.atom 7) (.atom 8) (.atom 9))) =
+    [.lp, .atom 1, .q, .atom 2, .colon, .atom 3, .rp, .q, .atom 4, .q, .atom 5, .colon, .atom 6, .colon, .atom 7, .q, .atom 8, .colon, .atom 9] := by decide
+example : pr genTbl 0 (.bin "??" (.atom 1) (.tern (.atom 2) (.atom 3) (.bin "||" (.atom 4) (.atom 5)))) =
+    [.atom 1, .op "??", .atom 2, .q, .atom 3, .colon, .atom 4, .op "||", .atom 5] := by decide
+example : pr genTbl 0 (.call (.index (.bin "+" (.atom 1) (.atom 2)) (.atom 3)) (.slice (.atom 4) (.atom 5) (.atom 6))) =
+    [.lp, .atom 1, .op "+", .atom 2, .rp, .lb, .atom 3, .rb, .lp, .atom 4, .lb, .atom 5, .colon, .atom 6, .rb, .rp] := by decide
 example : decDigits 4095 = [52, 48, 57, 53] := by simp [decDigits, digitChar]
 
 /-- The parser that is compiled IS the one generated from the grammar file: re-running goyacc on
